@@ -543,6 +543,39 @@ where
     assert!(eq(sr.rd()[p3][q3], c[p3][qr]), "Matrix::swap_rows exchanges exactly rows i and j");
 }
 
+/// Array::swap_elements with an out-of-range position (equal positions included) must panic
+pub fn lin_oob_swap<T, E, const N: usize>()
+where
+    E: Bits + kani::Arbitrary,
+    T: Lin<E, N> + Array<Element = E>,
+{
+    let c: [E; N] = kani::any();
+    let mut v = T::mk(c);
+    let a: usize = kani::any();
+    let b: usize = kani::any();
+    kani::assume(a >= N || b >= N);
+    oob_arm!({ v.swap_elements(a, b); })
+}
+
+/// Matrix::swap_columns / swap_rows / swap_elements with an out-of-range index must panic (float element types only)
+pub fn mat_oob_swap<M, E, const N: usize>()
+where
+    E: Bits + kani::Arbitrary + BaseFloat,
+    M: Mat<E, N> + cgmath::Matrix<Scalar = E, Column = <M as Mat<E, N>>::Col>,
+{
+    let c: [[E; N]; N] = kani::any();
+    let mut m = M::mk(c);
+    let a: usize = kani::any();
+    let b: usize = kani::any();
+    let k: u8 = kani::any();
+    match k {
+        0 => { kani::assume(a >= N || b >= N); oob_arm!({ m.swap_columns(a, b); }) }
+        1 => { kani::assume(a >= N || b >= N); oob_arm!({ m.swap_rows(a, b); }) }
+        _ => { let (x, y): (usize, usize) = (kani::any(), kani::any());
+               kani::assume(a >= N || b >= N || x >= N || y >= N); oob_arm!({ m.swap_elements((a, b), (x, y)); }) }
+    }
+}
+
 pub fn mat_oob<M, E, const N: usize>()
 where
     E: Bits + kani::Arbitrary,
